@@ -133,6 +133,19 @@ Theorem C05_gmrf_periodic_cov_refuted :
 Proof. exact gmrf_periodic_refuted. Qed.
 Print Assumptions C05_gmrf_periodic_cov_refuted.
 
+(* ---------------- the arithmetic of the executable checks ---------------- *)
+(* the model's optimised dot product (common denominator, integer arithmetic, zeros skipped) is the textbook recursion
+   a1*b1 + (a2*b2 + ...) -- the recursion `ldot` for which Props/C05_mc.v proves the covariance theorems over any field --
+   and every entry of the model's matrix product is that sum *)
+Theorem C05_qdot_is_dot : forall x y : Qvec, (qdot x y == qdot_ref x y)%Q.
+Proof. exact qdot_is_dot. Qed.
+Print Assumptions C05_qdot_is_dot.
+
+Theorem C05_qmm_entry : forall (A B : Qmat) (i j : nat),
+  (nth j (nth i (qmm A B) []) 0 == nth j (nth i (map (fun r => map (fun c => qdot_ref r c) (qtr B)) A) []) 0)%Q.
+Proof. exact qmm_entry. Qed.
+Print Assumptions C05_qmm_entry.
+
 (* ---------------- non-vacuity ---------------- *)
 Example C05_example :
   (gauss_branch false [[2; 1]; [0; 1]]%Q = BGeneral /\
